@@ -472,7 +472,7 @@ def replay(ctx, w):
 
             # run the whole per-tree battery with the recorded configuration
             orig_fresh = globals()['fresh']
-            globals()['fresh'] = lambda r, p, e, f: orig_fresh(root, pat, excl, flags)
+            globals()['fresh'] = lambda r, p, e, f, quiet=False: orig_fresh(root, pat, excl, flags, quiet)
             try:
                 check_tree(ctx, tr, FixedRng(), 0, True)
             finally:
